@@ -159,7 +159,7 @@ def builder_block(chk, thorough):
         raise ToolError("spec Builder (extension arithmetic) violates %s" % re_.violated)
     chk.add_tlc("Builder: every sequence of <= 3 calls of constant_extension / arithmetic_extension, then build, F_25", re_)
     for can in ("slot_full_late", "identity_wrong_operand", "cache_ignores_consts", "one_const_cell_short",
-                "ext_identity_wrong_operand", "mul_gate_for_any_const_addend"):
+                "ext_identity_wrong_operand", "mul_gate_for_any_const_addend", "routable_le"):
         rc = common.tlc("MCBuilder", cfg="MCBuilder_canary_" + can, workers=2, timeout=600, tag="mcbcan" + can)
         chk.canary("Builder mutant %s violates Inv (TLC counterexample)" % can, rc.violated == "Inv")
     runs, ln = (120, 120) if thorough else (24, 70)
